@@ -115,7 +115,7 @@ def gen_dataset(rng, prof):
     d.rfp = rfp
     nl = rng.randint(1, prof.get("lmax", 5))
     for l in range(1, nl + 1):
-        mode = 0 if (prof.get("transferable", False) and rng.chance(prof.get("ptransferable", 0.15))) else rng.randint(1, 2)
+        mode = 0 if (prof.get("transferable", False) and rng.chance(prof.get("ptransferable", 0.15))) else rng.choice([1, 1, 2, 2, 3, 4])
         d.lines.append((l, rng.randint(1, 2), mode))
     base = prof.get("base", rng.choice([0, 1, 5, 8, 9, 12, 17, 22, 23, 24, 27, 30])) * 3600 + rng.randint(0, 3599)
     hubs = rng.sample(d.nodes, max(1, n // 3))
@@ -178,11 +178,11 @@ def gen_dataset(rng, prof):
         if k in (1, 5, 6):
             lists[k] = rng.sample(lines, rng.randint(1, max(1, len(lines) - 1)))
         elif k == 2:
-            lists[2] = [rng.randint(1, 2)]
+            lists[2] = [rng.choice([1, 2, 3, 4])]
         elif k == 3:
             lists[3] = [rng.randint(1, 2)]
         elif k == 4:
-            lists[6] = [rng.randint(0, 2)]
+            lists[6] = [rng.choice([0, 1, 2, 3, 4])]
         elif k == 7:
             lists[7] = [rng.randint(1, 2)]
             lists[5] = rng.sample(lines, 1)
@@ -223,10 +223,10 @@ def gen_dataset_grid(rng, prof):
 
 def gen_tables(rng, d, prof):
     def table():
-        k = rng.choice([1, 1, 2, 2, 3]) if not rng.chance(prof.get("pempty", 0.03)) else 0
+        k = rng.choice([1, 1, 2, 2, 3, 3, 4]) if not rng.chance(prof.get("pempty", 0.03)) else 0
         g = prof.get("grid")
         tt = (lambda: rng.choice([0, 0, g, 2 * g, 3 * g])) if g else (lambda: rng.choice([0, 0, 60, 120, 300, rng.randint(0, 600)]))
-        return [(x, tt(), rng.randint(0, 800)) for x in rng.sample(d.nodes, k)]
+        return [(x, tt(), rng.randint(0, 800)) for x in rng.sample(d.nodes, min(k, len(d.nodes)))]
     return table(), table()
 
 
@@ -354,6 +354,11 @@ def gen_case(rng, prof, nq):
                 ew = rng.choice([0, 0, g or 60, 2 * (g or 60)])
                 acc = [(start, aw, rng.randint(0, 800))] + [r for r in acc if r[0] != start][:rng.randint(0, 2)]
                 egr = [(dest, ew, rng.randint(0, 800))] + [r for r in egr if r[0] != dest][:rng.randint(0, 2)]
+                # the router lists stops in its own order: the planted (usually nearest) stop is not always first
+                if rng.chance(0.5):
+                    acc = acc[1:] + acc[:1]
+                if rng.chance(0.5):
+                    egr = egr[1:] + egr[:1]
                 if fwd:
                     q["time"] = max(0, t0 - aw - rng.choice([0, 0, 60, 300, 900]))
                 else:
